@@ -497,6 +497,8 @@ class Concatenator(Group):  # pylint: disable=too-many-public-methods
         elif isinstance(entity, ConcatenatedObject):
             # First remove the children
             entity.remove_children(entity.children.copy())
+            for field in ("surveys", "trace", "property_groups"):
+                self.update_array_attribute(entity, field, remove=True)
             object_ids = self.concatenated_object_ids
 
             if object_ids is not None:
